@@ -65,7 +65,7 @@ def eval_water_cases(ctx, corr, cases, shard=60, name="Cases_water"):
         if rc != 0 or not m:
             corr.mismatches.append({"kind": "coq-eval", "shard": nm, "output": o[-1200:]})
             continue
-        pairs = re.findall(r"\((\d+)(?:%nat)?,\s*(\d+)(?:%nat)?\)", m.group(1))
+        pairs = re.findall(r"\(\s*(\d+)(?:%nat)?\s*,\s*(\d+)(?:%nat)?\s*\)", m.group(1))
         if m.group(1).strip() != "[]" and not pairs:
             corr.mismatches.append({"kind": "coq-eval", "shard": nm, "output": o[-1200:]})
         for idx, mask in pairs:
@@ -94,7 +94,7 @@ def eval_steps_cases(ctx, corr, cases, name="Cases_steps"):
         if rc != 0 or not m:
             corr.mismatches.append({"kind": "coq-eval", "shard": nm, "output": o[-1200:]})
             continue
-        pairs = re.findall(r"\((\d+)(?:%nat)?,\s*(\d+)(?:%nat)?\)", m.group(1))
+        pairs = re.findall(r"\(\s*(\d+)(?:%nat)?\s*,\s*(\d+)(?:%nat)?\s*\)", m.group(1))
         if m.group(1).strip() != "[]" and not pairs:
             corr.mismatches.append({"kind": "coq-eval", "shard": nm, "output": o[-1200:]})
         for idx, mask in pairs:
@@ -120,6 +120,15 @@ def prepare_examples(ctx, extreme_rain=True):
     t = [l for l in open(ep).read().split("\n") if l.strip() and l.strip() != "end"]
     t.append("10001     04201982 0025 0015 0010 1 0.500 0.500 0.500 0010   0010    0010     0.600 0.600  0.600  ")
     open(ep, "w").write("\n".join(t + ["end"]) + "\n")
+    # a constant groundwater table INSIDE the profile and an active drain (all shipped soils have GW 99 and Drai% 00):
+    # soil 160 of project ex1 gets drain depth 10 dm, drain share 0.3, groundwater at 6 dm (a rooted layer sits at the table) (fixed columns of soil.go)
+    sp = os.path.join(ex, "project", "ex1", "soil_ex1.txt")
+    sl = open(sp).read().split("\n")
+    for i, l in enumerate(sl):
+        if l.startswith("160 ") and len(l) >= 72 and l[70:72] == "99":
+            sl[i] = l[:62] + "10" + l[64:67] + "0.3" + "06" + l[72:]
+            break
+    open(sp, "w").write("\n".join(sl))
     if extreme_rain:
         rnd = random.Random(ctx.seed)
         src = os.path.join(ex, "weather", "historical")
@@ -168,7 +177,7 @@ def run_trace(ctx, water_every=None):
     """traced runs of shipped projects (scratch copy) -> (rc, cases, oracle lines, stderr)"""
     import os
     ex = prepare_examples(ctx)
-    nl, endy = (8, 1995) if ctx.thorough else (3, 1983)
+    nl, endy = (8, 1995) if ctx.thorough else (4, 1982)
     lf = os.path.join(ctx.work, "trace_lines.txt")
     with open(lf, "w") as f:
         f.write("\n".join(trace_lines(ctx, nl, endy)) + "\n")
